@@ -98,6 +98,9 @@ def run(rep):
     diverges = [e for e in ogp.effects.get(q, []) if e['kind'] == 'diverge' and e['what'] in ('panic', 'todo', 'unreachable', 'unimplemented', 'assert')]
     relevant = [e for e in diverges if mentions(e['cond'], lambda x: (x[0] == 'f' and x[1] == optP and x[2] in ATOMS) or is_rts_any(x))]
     rep.analysed = {'function': q, 'derive_entries': len(entries), 'panic_sites_depending_on_options_or_runtime_arrays': len(relevant), 'rows': 64}
+    # the options reach the generating function and its sections exactly as the caller gave them (shared MIR rule, lib/wrappers.py)
+    from wrappers import check_option_passthrough
+    check_option_passthrough(rep, 'C09.options-passthrough')
     unknown_atoms = set()
     n_rows = 0
     # conditions inherited from the selection of the struct (C08's predicate) are fixed to "a struct taken by an entry point and not
